@@ -58,6 +58,8 @@ def has_collapsing_member(api, t, v):
 def task(item):
     if item[0] == 'namecase':
         return rtbase.name_case_task(['roundtrip'])
+    if item[0] == 'history':
+        return rtbase.history_task(task, item, TIER[0])
     pos, i = item
     u = rtbase.universe(TIER[0])
     t = u.ir_type(pos, i)
@@ -140,6 +142,9 @@ def run(tier, seed):
         t = u.ir_type(*it)
         r.sample({'position': it[0], 'shape': u.shapes[it[1]], 'values': [rt.show(v) for v in rt.ref_values(t)[:3]]})
     r.run_tasks(task, items, budget=120)
+    hist = rtbase.history_items(tier)
+    r.bounds['history_pairs'] = len(hist)
+    r.run_tasks(task, hist, budget=240, order_base=len(items), fresh=True)
     r.assumptions = ['values with the catch-all tag selected are not part of the value set (C06 requires decoders to refuse it)',
                      'a nullable plain-struct union member without set fields reads back as the null member (documented)']
     r.finish('every type shape at every position x every boundary value x {strict, lenient} x {object, string} entry points: '
@@ -152,6 +157,8 @@ def replay(rep):
     shape, pos = rep['inputs']['shape'], rep['inputs']['position']
     if shape not in u.shapes:
         return 2
+    if rep['inputs'].get('history') in u.shapes:
+        task(('alias', u.shapes.index(rep['inputs']['history'])))
     out = task((pos, u.shapes.index(shape)))
     if out['viol']:
         print('VIOLATION property=%s replay=replayed' % PROP)
